@@ -108,7 +108,7 @@ def main(tier_, replay=None):
         "theorems": [n for n in names if n.startswith("C17_")],
         "evaluations": len(scenarios), "distinct_nontrivial": len({json.dumps(s) for s in scenarios}),
         "rule": "interleavings of registration and cooking of 2-4 bundles with overlapping names, each in a fresh "
-                "process; every engine x 2 rounds x 17 requests (same names with other definitions per bundle: mandatory vs optional arguments, other enum values; incl. introspection, variables of a custom scalar and of an input object with a directive, and a subscription) compared with "
+                "process; every engine x 2 rounds x 18 requests (incl. same-named scalars / enums at wrapped output positions) (same names with other definitions per bundle: mandatory vs optional arguments, other enum values; incl. introspection, variables of a custom scalar and of an input object with a directive, and a subscription) compared with "
                 "the bundle built alone in a fresh process; non-trivial = distinct interleavings",
         "traces_validated_against_impl": compared, "registry_projection_mismatches": len(reg_mm),
         "property_violations": len(viol), "samples": scenarios[:3],
